@@ -1,6 +1,7 @@
 import StunVerif.Props.C11
 import StunVerif.Props.C11Parse
 import StunVerif.Props.SrcFnBuilder
+import StunVerif.Props.SrcFnWrite
 #print axioms StunVerif.C11.types_inv
 #print axioms StunVerif.C11.add_refused_iff
 #print axioms StunVerif.C11.sha1_refused_iff
@@ -20,3 +21,11 @@ import StunVerif.Props.SrcFnBuilder
 #print axioms StunVerif.SrcFnBuilder.src_integrityBytes
 #print axioms StunVerif.SrcFnBuilder.src_addMessageIntegrity
 #print axioms StunVerif.SrcFnBuilder.src_addFingerprint_full
+#print axioms StunVerif.SrcFnWrite.src_byteLen
+#print axioms StunVerif.SrcFnWrite.src_writeAttrsLoop
+#print axioms StunVerif.SrcFnWrite.encBE_mod
+#print axioms StunVerif.SrcFnWrite.tid_word
+#print axioms StunVerif.SrcFnWrite.header_puts
+#print axioms StunVerif.SrcFnWrite.src_writeInto
+#print axioms StunVerif.SrcFnWrite.src_build
+#print axioms StunVerif.SrcFnWrite.build_is_source
